@@ -76,20 +76,25 @@ Theorem C09_casefold_total_preorder :
 Proof. exact (casefold_total_preorder dinfer natsort_less). Qed.
 Print Assumptions C09_casefold_total_preorder.
 
-(* numeric: on all values whose integer readings lie in -2^53 .. 2^53 (exactly the integers every one of which is
-   representable as a double) together with every float reading, empty and string: conversion of those integers to
-   binary64 is exact and strictly monotone (C09/FloatMono.v, proved about the C06 model's float_of_int) *)
-Definition int53 (n : Z) : Prop := - 2 ^ 53 <= n <= 2 ^ 53.
+(* numeric: on ALL values exactly representable as doubles (NaN excluded): every float reading (finite, +-0, +-Inf),
+   every empty and string, and every integer reading n that is exactly representable -- |n| <= 2^53, or, beyond,
+   n a multiple of 2^(floor(log2 |n|) - 52) ([exact_int], C09/FloatMono.v: conversion of those integers to binary64
+   by the C06 model's float_of_int is exact, hence strictly monotone).  NaN is excluded by the property; in the model
+   [fkey] places NaN bit patterns beyond the infinities, which is not claimed to be what the code does. *)
+Definition exact_dom (n : Z) : Prop := exact_int n = true.
 Theorem C09_numeric_total_preorder :
-  total_preorder_on (num_dom dinfer int53) (flag_cmp dinfer natsort_less Fnf)
-  /\ total_preorder_on (num_dom dinfer int53) (flag_cmp dinfer natsort_less Fnr).
-Proof.
-  exact (numeric_total_preorder dinfer natsort_less int53
-           (fun x y Hx Hy Hxy => float_of_int_mono x y (proj1 Hx) (proj2 Hy) Hxy)).
-Qed.
+  total_preorder_on (num_dom dinfer exact_dom) (flag_cmp dinfer natsort_less Fnf)
+  /\ total_preorder_on (num_dom dinfer exact_dom) (flag_cmp dinfer natsort_less Fnr).
+Proof. exact (numeric_total_preorder dinfer natsort_less exact_dom float_of_int_mono_exact). Qed.
 Print Assumptions C09_numeric_total_preorder.
 
-(* ... and the bound cannot be dropped: just beyond 2^53 the comparator is not transitive on ties *)
+(* the domain contains -2^53 .. 2^53 (the previous statement of this theorem) and, e.g., 2^53+2, -2^63, 2^63-1024 *)
+Theorem C09_exact_domain_contains_int53 : forall n, - 2 ^ 53 <= n <= 2 ^ 53 -> exact_dom n.
+Proof. exact exact_int_small. Qed.
+Print Assumptions C09_exact_domain_contains_int53.
+
+(* ... and the restriction to exactly representable integers cannot be dropped: 2^53+1 is not one, and the
+   comparator is not transitive on ties there *)
 Theorem C09_numeric_total_preorder_all_int64_refuted : exists a b c,
   flag_cmp dinfer natsort_less Fnf a b = 0 /\ flag_cmp dinfer natsort_less Fnf b c = 0 /\ flag_cmp dinfer natsort_less Fnf a c <> 0.
 Proof.
@@ -98,15 +103,65 @@ Qed.
 Print Assumptions C09_numeric_total_preorder_all_int64_refuted.
 
 (* several keys in precedence order: the chain of lexical / case-folded / numeric comparators is a total preorder on
-   value tuples over the same domain (natural-order keys excluded: natsort has no such law) *)
+   value tuples over the same domain (natural-order keys excluded: see below) *)
 Theorem C09_key_chain_total_preorder : forall fl,
   (forall f, In f fl -> In f [Ff; Fr; Fc; Fcr; Fnf; Fnr]) ->
-  total_preorder_on (fun l => List.length l = List.length fl /\ Forall (num_dom dinfer int53) l) (chain_cmp dinfer natsort_less fl).
-Proof.
-  exact (std_chain_preorder dinfer natsort_less int53
-           (fun x y Hx Hy Hxy => float_of_int_mono x y (proj1 Hx) (proj2 Hy) Hxy)).
-Qed.
+  total_preorder_on (fun l => List.length l = List.length fl /\ Forall (num_dom dinfer exact_dom) l) (chain_cmp dinfer natsort_less fl).
+Proof. exact (std_chain_preorder dinfer natsort_less exact_dom float_of_int_mono_exact). Qed.
 Print Assumptions C09_key_chain_total_preorder.
+
+(* ---- natural order (github.com/facette/natsort through NaturalAscending/DescendingComparator).
+   The property text claims no order law for it, and none holds on all strings:
+   (1) a digit run above 2^63-1 makes strconv.Atoi fail, the chunk is then compared bytewise: a strict 3-cycle
+       9 < 10 < 100000000000000000000 < 9 under -t (so NO arrangement of these three is ordered); *)
+Theorem C09_natural_transitive_refuted : exists a b c,
+  flag_cmp dinfer natsort_less Ft a b < 0 /\ flag_cmp dinfer natsort_less Ft b c < 0 /\ flag_cmp dinfer natsort_less Ft c a < 0.
+Proof. exact (ex_intro _ (B "9") (ex_intro _ (B "10") (ex_intro _ (B "100000000000000000000") nat_cycle_witness))). Qed.
+Print Assumptions C09_natural_transitive_refuted.
+
+(* (2) distinct texts that natsort deems equal ("01" and "1") get a NON-ZERO result in both directions, so a later key is
+       never consulted for them and the chained callback is not a strict weak order: with keys -t a -f b the records
+       (01,z) and (1,y), and (01,z) and (1,z), are mutually not-less, yet (1,y) is less than (1,z). *)
+Theorem C09_natural_then_other_key_not_weak_order_refuted : exists u v w,
+  less dinfer natsort_less [Ft; Ff] u v = false /\ less dinfer natsort_less [Ft; Ff] v u = false
+  /\ less dinfer natsort_less [Ft; Ff] u w = false /\ less dinfer natsort_less [Ft; Ff] w u = false
+  /\ less dinfer natsort_less [Ft; Ff] v w = true.
+Proof. exact (ex_intro _ [B "01"; B "z"] (ex_intro _ [B "1"; B "y"] (ex_intro _ [B "1"; B "z"] nat_chain_witness))). Qed.
+Print Assumptions C09_natural_then_other_key_not_weak_order_refuted.
+
+(* NOT PROVED (full statement, kept for the record): on the clean domain -- texts none of whose digit runs exceeds
+   2^63-1 -- the callback of -t is the strict part of a total preorder, hence a strict weak order:
+     Theorem C09_natural_strict_weak_order_on_clean_domain :
+       exists c3 : bytes -> bytes -> Z, total_preorder_on (fun a => clean a = true) c3
+         /\ forall a b, clean a = true -> clean b = true ->
+              (flag_cmp dinfer natsort_less Ft a b <? 0) = (c3 a b <? 0) /\ (flag_cmp dinfer natsort_less Ftr a b <? 0) = (c3 b a <? 0).
+   with clean a := every chunk of (chunkify a) that starts with a digit has chunk_num = Some _, and c3 := the
+   lexicographic three-way comparison of the chunk lists (chunks both numeric: cmpZ of the values; otherwise lex_cmp;
+   a proper prefix first).  Argument: nat_chunks_less ca cb = (c3 <=? 0) for ca <> [] (natsort.Compare is the NON-strict
+   order); the chunk comparison is a total preorder on good chunks because a digit-first and a non-digit-first chunk are
+   ordered by their first bytes alone (all digit chunks lie between the non-digit chunks starting below '0' and those
+   starting above '9'); lexicographic products of total preorders are total preorders.  Missing: the Coq proof (time).
+   On this domain the full checker check_sort is RUN on mlr's natural-sort outputs (cases 'nat') and accepts them. *)
+
+(* What still holds for sorts with natural-order keys on ALL inputs: the weak checker run on such outputs means a
+   permutation, groups contiguous in input order, key-less records last, and no group head strictly less than its
+   immediate predecessor (what insertion sort -- sort.SliceStable on at most 20 groups -- guarantees for any callback);
+   every output satisfying the full specification satisfies it. *)
+Theorem C09_check_sort_adj_sound : forall ks inp out,
+  check_sort_adj dinfer natsort_less ks inp out = true ->
+  Permutation out inp
+  /\ exists gs, Permutation gs (dkeys (sort_keyf ks) inp) /\ out = sort_output ks inp gs
+       /\ (forall pre g h post, gs = pre ++ g :: h :: post ->
+            less dinfer natsort_less (map snd ks) (head_vals ks inp h) (head_vals ks inp g) = false).
+Proof.
+  exact (fun ks inp out H => conj (sort_spec_adj_permutation dinfer natsort_less ks inp out (check_sort_adj_sound dinfer natsort_less ks inp out H))
+                                  (check_sort_adj_sound dinfer natsort_less ks inp out H)).
+Qed.
+Print Assumptions C09_check_sort_adj_sound.
+Theorem C09_sort_spec_implies_adjacent_spec : forall ks inp out,
+  sort_spec dinfer natsort_less ks inp out -> sort_spec_adj dinfer natsort_less ks inp out.
+Proof. exact (sort_spec_implies_adj dinfer natsort_less). Qed.
+Print Assumptions C09_sort_spec_implies_adjacent_spec.
 
 (* flag mapping: every descending flag is its ascending comparator with the arguments exchanged, including the
    deliberately inverted natural pair (-t selects NaturalDescendingComparator, which sorts ascending) *)
@@ -145,6 +200,16 @@ Example C09_nonvacuous :
   /\ check_sort dinfer natsort_less [(B "x", Fnr)] ex_in ex_out = false
   /\ check_sort dinfer natsort_less [(B "x", Fnf)] [[(B "x", B "1.0")]; [(B "x", B "1")]] [[(B "x", B "1.0")]; [(B "x", B "1")]] = true
   /\ check_sort dinfer natsort_less [(B "x", Fnf)] [[(B "x", B "1.0")]; [(B "x", B "1")]] [[(B "x", B "1")]; [(B "x", B "1.0")]] = false
-  /\ num_dom dinfer int53 (B "9007199254740992") /\ num_dom dinfer int53 (B "-12") /\ num_dom dinfer int53 (B "abc") /\ num_dom dinfer int53 (B "1e300")
+  /\ num_dom dinfer exact_dom (B "9007199254740992") /\ num_dom dinfer exact_dom (B "9007199254740994") /\ num_dom dinfer exact_dom (B "-9223372036854775808")
+  /\ num_dom dinfer exact_dom (B "0x7ffffffffffffc00") /\ num_dom dinfer exact_dom (B "-12") /\ num_dom dinfer exact_dom (B "abc") /\ num_dom dinfer exact_dom (B "1e300")
   /\ flag_cmp dinfer natsort_less Fc (B "Pan") (B "pAN") = 0 /\ flag_cmp dinfer natsort_less Ft (B "a2") (B "a10") = -1.
 Proof. vm_compute. repeat split; try reflexivity; discriminate. Qed.
+(* the 3-cycle: the weak checker accepts the arrangement mlr prints for the input order 9, 1e20, 10 and the full one rejects every arrangement *)
+Definition cyc (l : list bytes) : list record := map (fun v => [(B "a", v)]) l.
+Example C09_nonvacuous_natural :
+  check_sort_adj dinfer natsort_less [(B "a", Ft)] (cyc [B "9"; B "100000000000000000000"; B "10"]) (cyc [B "100000000000000000000"; B "9"; B "10"]) = true
+  /\ check_sort_adj dinfer natsort_less [(B "a", Ft)] (cyc [B "9"; B "100000000000000000000"; B "10"]) (cyc [B "10"; B "9"; B "100000000000000000000"]) = false
+  /\ forallb (fun o => negb (check_sort dinfer natsort_less [(B "a", Ft)] (cyc [B "9"; B "100000000000000000000"; B "10"]) (cyc o)))
+       [[B "9"; B "10"; B "100000000000000000000"]; [B "9"; B "100000000000000000000"; B "10"]; [B "10"; B "9"; B "100000000000000000000"];
+        [B "10"; B "100000000000000000000"; B "9"]; [B "100000000000000000000"; B "9"; B "10"]; [B "100000000000000000000"; B "10"; B "9"]] = true.
+Proof. vm_compute. repeat split; reflexivity. Qed.
